@@ -54,7 +54,10 @@ def hyp_sign_fix(x):
 @st.composite
 def cloud_case(draw, max_n=6, max_rank=3):
     n = draw(st.integers(1, max_n))
-    shape = draw(gen.shapes(max_rank=max_rank))
+    # (an empty composite - a selection pts[mask] that selected nothing - is a composite too)
+    shape = draw(st.one_of(gen.shapes(max_rank=max_rank), gen.shapes(max_rank=max_rank),
+                           gen.shapes(max_rank=max_rank), gen.shapes(max_rank=max_rank),
+                           st.sampled_from([[0], [2, 0], [0, 3]])))
     cnt = gen.prod(shape)
     pts = draw(gen.klein_points(n, cnt))
     src = draw(st.sampled_from(MODELS))
@@ -78,6 +81,8 @@ def body_roundtrip(case, ctx):
     rad = np.sqrt(np.sum(K * K, axis=-1))
     hscale = float(np.max(1.0 / np.sqrt(1 - rad ** 2))) if K.size else 1.0
     ctx.label("src=" + src, "n=%d" % n, "rank=%d" % len(shape))
+    if K.size == 0:
+        ctx.label("empty-composite")
     if K.size and float(np.max(rad)) > 0:
         ctx.label("not-origin")
     if float(np.max(rad, initial=0.0)) > 0.99:
